@@ -193,3 +193,12 @@ func (d *Daemon) WriteLine(db, rp, lines string) int {
 func (d *Daemon) Define(id, script string, tt kapacitor.TaskType, dbrps []kapacitor.DBRP) (*kapacitor.Task, error) {
 	return d.TM.NewTask(id, script, tt, dbrps, 0, nil)
 }
+
+// LogHead returns the first n bytes of the daemon's error log.
+func (d *Daemon) LogHead(n int) string {
+	b := d.Log.buf.Bytes()
+	if len(b) > n {
+		b = b[:n]
+	}
+	return string(b)
+}
